@@ -647,6 +647,14 @@ def shift_register(ctx, R="R-C01-shift-register"):
         ev = SymEval(prog, f, inline_props=False)
         ev.env = {}
         lenmap = {S.sym("self._dft_size"): Lsym, S.call("len", S.sym("self._x_buf")): Lsym}
+        # locals bound once to the length of a block (n = len(block))
+        len_alias = {}
+        for n_ in f.body_nodes():
+            if (isinstance(n_, ast.Assign) and len(n_.targets) == 1 and isinstance(n_.targets[0], ast.Name) and isinstance(n_.value, ast.Call)
+                    and astq.is_name(n_.value.func, "len") and len(n_.value.args) == 1 and isinstance(n_.value.args[0], ast.Name)):
+                nm_ = n_.targets[0].id
+                if sum(1 for y in f.body_nodes() if isinstance(y, ast.Name) and y.id == nm_ and isinstance(y.ctx, ast.Store)) == 1 and nm_ != "x_len":
+                    len_alias[S.sym(nm_)] = S.call("len", S.sym(n_.value.args[0].id))
 
         def E(node):
             if node is None:
@@ -655,6 +663,8 @@ def shift_register(ctx, R="R-C01-shift-register"):
             # local aliases of the buffer length
             for nm in ("x_len",):
                 e = S.subst(e, {S.sym(nm): Lsym})
+            if len_alias:
+                e = S.subst(e, len_alias)
             return S.subst(e, lenmap)
 
         def norm_lo(e):  # slice lower bound: None -> 0, negative k -> LEN + k
@@ -700,8 +710,18 @@ def shift_register(ctx, R="R-C01-shift-register"):
                 if not prefix:
                     # suffix form: [a - LEN : a] or [-LEN:]
                     lo, hi = E(vlo_raw), E(vhi_raw)
+                    # a slice of a slice: x[a:b][c:] starts at a + c and ends where x[a:b] ends (c counts from the start of the inner
+                    # slice, whose length is b - a)
+                    inner = v.value
+                    if isinstance(inner, ast.Subscript) and isinstance(inner.slice, ast.Slice) and inner.slice.step is None:
+                        ilo, ihi = norm_lo(E(inner.slice.lower)), E(inner.slice.upper)
+                        ilen = S.sub(ihi, ilo) if ihi != S.NONE else S.sub(S.call("len", E(inner.value)), ilo)
+                        lo = S.subst(lo, {S.call("len", E(inner)): ilen})
+                        base_len = ilen
+                    else:
+                        base_len = S.call("len", E(inner))
                     if hi == S.NONE:
-                        ok = lo.op == "neg" and lo.args[0] == Lsym
+                        ok = (lo.op == "neg" and lo.args[0] == Lsym) or S.compare(lo, S.sub(base_len, Lsym), domain={})["verdict"] == "equal"
                     else:
                         ok = S.compare(S.sub(hi, lo), Lsym, domain={})["verdict"] == "equal"
                     ctx.check(ok, R, f, st, "the overwrite takes exactly len(buffer) samples ending where the pushed block ends",
